@@ -407,19 +407,22 @@ async fn run_script<const K: usize>(node: &mut Node<K>, ctx: &mut Context<Node<K
                 emit(format!("ctx {} send_to_children {} {}", a, j, b));
             }
             Act::Subscribe(j) => {
+                let o = crate::prog::fresh_op();
+                emit(format!("bbegin {} sub {} {}", o, j, a));
                 let r = match j {
                     0 => ctx.subscribe::<Topic<0>>().await,
                     _ => ctx.subscribe::<Topic<1>>().await,
                 };
-                emit(format!("ctx {} subscribe {} {}", a, j, res_str(&r)));
+                emit(format!("bret {} {}", o, res_str(&r)));
             }
             Act::Publish { j, m } => {
-                emit(format!("ctx {} publish_begin {} {}", a, j, m));
+                let o = crate::prog::fresh_op();
+                emit(format!("bbegin {} pub {} {}", o, j, m));
                 let r = match j {
                     0 => ctx.publish(Topic::<0> { m: *m }).await,
                     _ => ctx.publish(Topic::<1> { m: *m }).await,
                 };
-                emit(format!("ctx {} publish_end {} {} {}", a, j, m, res_str(&r)));
+                emit(format!("bret {} {}", o, res_str(&r)));
             }
             Act::WeakAddress(h) => match ctx.weak_address() {
                 Some(w) => {
